@@ -42,3 +42,28 @@ def expansion (maxCoord maxAbs : α) : α := if 0 < maxAbs then maxCoord / maxAb
 end
 end Pipeline
 end Umap
+
+namespace Umap
+namespace Pipeline
+
+section
+variable {α : Type} [Add α] [Sub α] [Mul α] [Div α] [Neg α] [LT α] [LE α]
+  [DecidableLT α] [DecidableLE α] [OfNat α 0] [OfNat α 1] [NatCast α]
+
+/--
+  `init_update(current_init, n_original_samples, indices)` for one new row `i`
+  (umap_.py): every coordinate accumulates the coordinates of the row's neighbours among the
+  original samples; the counter `n` is incremented once per (neighbour, coordinate) pair — i.e. it
+  ends at `count * dim` — and the row is divided by it unless it is zero (repaired code).
+  `orig j` is the current init row of original sample `j`; `row0` the new row's initial value.
+-/
+def initUpdateRow (nOrig dim : Nat) (orig : Nat → List α) (row0 : List α) (nbrs : List Nat) : List α :=
+  let olds := nbrs.filter (· < nOrig)
+  let n := olds.length * dim
+  let summed := (List.range dim).map (fun d =>
+    olds.foldl (fun acc j => acc + (orig j).getD d 0) (row0.getD d 0))
+  if n = 0 then summed else summed.map (fun v => v / (n : α))
+
+end
+end Pipeline
+end Umap
